@@ -21,6 +21,10 @@ import (
 	"verif/mc/props/c02"
 	"verif/mc/props/c04"
 	"verif/mc/ref"
+	"verif/mc/rs"
+	"verif/mc/typed"
+
+	"github.com/ipld/go-ipld-prime/schema"
 )
 
 const (
@@ -145,6 +149,7 @@ type Case struct {
 	V     ref.Val   `json:"value"`
 	Proto lsx.Proto `json:"proto"`
 	Impl  string    `json:"impl"`
+	Typed *TypedRef `json:"typed,omitempty"`
 }
 
 func lctx() linking.LinkContext { return linking.LinkContext{} }
@@ -182,12 +187,62 @@ func protoDomain(p lsx.Proto) bool {
 }
 
 func Check(c Case) (fs []core.Finding, outcome string) {
-	codec := c.Proto.Codec // for CIDv0 the prototype's codec field still selects the encoder
-	site := fmt.Sprintf("codec0x%x", c.Proto.Codec)
+	if c.Typed != nil {
+		n, v, err := typedNode(c.Typed)
+		if err != nil {
+			return []core.Finding{core.F("harness/build-typed", "%v", err)}, "harness"
+		}
+		c.V = v
+		return CheckNode(c, n)
+	}
 	n, err := ref.ImplBuild(c.Impl, c.V)
 	if err != nil {
 		return []core.Finding{core.F("harness/build", "%v", err)}, "harness"
 	}
+	return CheckNode(c, n)
+}
+
+// TypedRef names a typed node: a value of a family type at one level.
+type TypedRef struct {
+	Schema string  `json:"schema"`
+	Type   string  `json:"type"`
+	Value  ref.Val `json:"typed_value"`
+	Repr   bool    `json:"representation_view"`
+}
+
+var bindEngine = typed.NewBindEngine()
+var typedFams = rs.Families(true)
+
+// typedNode builds the bindnode node and returns it (or its representation view) with the
+// data-model value that view presents.
+func typedNode(t *TypedRef) (datamodel.Node, ref.Val, error) {
+	for _, s := range typedFams {
+		if s.Name != t.Schema {
+			continue
+		}
+		ty := s.T(t.Type)
+		nb := bindEngine.Proto(s, t.Type, false).NewBuilder()
+		if err := ref.Assign(nb, s.FeedType(ty, t.Value)); err != nil {
+			return nil, ref.Val{}, err
+		}
+		n := nb.Build()
+		if t.Repr {
+			r, _ := s.Repr(ty, t.Value)
+			return n.(schema.TypedNode).Representation(), r, nil
+		}
+		return n, s.FeedType(ty, t.Value), nil
+	}
+	return nil, ref.Val{}, fmt.Errorf("no schema %s", t.Schema)
+}
+
+// CheckNode runs the link-system checks on node n, which presents data-model value c.V.
+func CheckNode(c Case, n datamodel.Node) (fs []core.Finding, outcome string) {
+	codec := c.Proto.Codec // for CIDv0 the prototype's codec field still selects the encoder
+	site := fmt.Sprintf("codec0x%x", c.Proto.Codec)
+	if c.Typed != nil {
+		site += "/typed"
+	}
+	var err error
 	st := lsx.NewStore()
 	ls := lsx.NewLinkSystem(st)
 	lp := c.Proto.LP()
@@ -224,7 +279,7 @@ func Check(c Case) (fs []core.Finding, outcome string) {
 	if codec == DagCbor || codec == DagJson {
 		cv = Canon(codec, c.V)
 	}
-	if c.Impl != "basic-any" || !ref.Equal(cv, c.V) {
+	if c.Impl != "basic-any" || !ref.Equal(cv, c.V) || c.Typed != nil {
 		if l3, err := ls.ComputeLink(lp, ref.Basic(cv)); err != nil || lsx.LinkBin(l3) != b1 {
 			cause := "impl-dependent(" + c.Impl + ")"
 			if !ref.Equal(cv, c.V) {
@@ -358,6 +413,32 @@ func Universe(quick bool) []Case {
 			}
 		}
 	}
+	// typed nodes (reflection binding), type-level and representation views, of the schema families
+	for _, s := range typedFams {
+		for _, tn := range s.Roots {
+			ty := s.T(tn)
+			vals := s.Values(ty, 0)
+			for vi, v := range vals {
+				if vi%5 != 0 && quick || hasAbsent(v) {
+					continue
+				}
+				for _, repr := range []bool{false, true} {
+					for _, codec := range []uint64{DagCbor, DagJson} {
+						var dm ref.Val
+						if repr {
+							dm, _ = s.Repr(ty, v)
+						} else {
+							dm = s.FeedType(ty, v)
+						}
+						if !InDomain(codec, dm) {
+							continue
+						}
+						cases = append(cases, Case{Proto: lsx.Proto{Version: 1, Codec: codec, MhType: mh.SHA2_256, MhLength: -1}, Impl: "bindnode", Typed: &TypedRef{s.Name, tn, v, repr}})
+					}
+				}
+			}
+		}
+	}
 	// CIDv0 (dag-pb codec field selects no registered encoder; v0 needs codec 0x70 which is not registered) — only with dag-cbor via explicit codec: not expressible; skipped by domain.
 	// every registered hash function × digest lengths on three values
 	few := []ref.Val{ref.Map(ref.E("b", ref.Int(1)), ref.E("a", ref.List(ref.Str("x")))), ref.Bytes("\x00\x01"), ref.Str("")}
@@ -397,7 +478,7 @@ func Main(r *core.Run) {
 		}
 		r.Report("value", c, fs)
 	})
-	r.Sample(map[string]any{"value": cases[len(cases)/2].V.String(), "proto": cases[len(cases)/2].Proto.String(), "impl": cases[len(cases)/2].Impl})
+	r.Sample(map[string]any{"value": cases[len(cases)/3].V.String(), "proto": cases[len(cases)/2].Proto.String(), "impl": cases[len(cases)/2].Impl})
 	r.Set("value_cases", len(cases))
 	histories(r)
 }
@@ -421,3 +502,20 @@ func Replay(r *core.Run, mode string, raw json.RawMessage) {
 }
 
 var _ = strings.Repeat
+
+func hasAbsent(v ref.Val) bool {
+	if v.K == ref.KAbsent {
+		return true
+	}
+	for _, c := range v.L {
+		if hasAbsent(c) {
+			return true
+		}
+	}
+	for _, e := range v.M {
+		if hasAbsent(e.V) {
+			return true
+		}
+	}
+	return false
+}
